@@ -35,11 +35,11 @@ def make_symbolic(I, kind, name):
         if kind == 'date':
             # seconds since the epoch as stored by the server (a KMIP DateTime: signed 64 bit)
             t = fresh(name)
-            P.assume(z3.And(t >= 0, t <= 2 ** 63 - 1))
+            P.assume(z3.And(t >= 0, t < 2 ** 55))      # assigned from the server's clock (time.time())
             return SInt(t)
         if kind == 'pos':
             t = fresh(name)
-            P.assume(t >= 1)
+            P.assume(z3.And(t >= 1, t < 2 ** 55))      # a stored date: positive, from the server's clock
             return SInt(t)
         if kind == 'byte':
             t = fresh(name)
@@ -156,7 +156,20 @@ def make_symbolic(I, kind, name):
         # concrete spine of the given lengths
         lens = kind[2] if len(kind) > 2 else (0, 1, 2)
         k = P.choose(len(lens), "len:" + name)
-        return [make_symbolic(I, kind[1], "%s[%d]" % (name, i)) for i in range(lens[k])]
+        lst = [make_symbolic(I, kind[1], "%s[%d]" % (name, i)) for i in range(lens[k])]
+        # what the list holds on entry (the code under proof may change it in place; counterexamples
+        # report inputs, not the state left behind)
+        P.ghost.setdefault('initial_lists', {})[id(lst)] = (lst, list(lst))
+        return lst
+    if tag == 'where':
+        # refinement: a value of kind[1] that satisfies the native predicate kind[2](I, value) -> z3 Bool/bool
+        v = make_symbolic(I, kind[1], name)
+        t = kind[2](I, v)
+        if t is False:
+            raise pyvc.Infeasible()
+        if t is not True:
+            P.assume(t)
+        return v
     if tag == 'tuple':
         return tuple(make_symbolic(I, k, "%s[%d]" % (name, i)) for i, k in enumerate(kind[1:]))
     if tag == 'payload':
@@ -206,6 +219,8 @@ def make_symbolic(I, kind, name):
         return dbmodel.new_managed(I, cls, name, attached=False)
     if tag == 'tainted_bytes':
         return SSeq('bytes', [('s', fresh(name, IntSeq))], frozenset([kind[1]]))
+    if tag == 'tainted_str':
+        return SSeq('str', [('s', fresh(name, IntSeq))], frozenset([kind[1]]))
     if tag == 'opaque_facts':
         return Opaque('object', kind[1], facts=set(kind[2]))
     if tag == 'model':
@@ -213,7 +228,12 @@ def make_symbolic(I, kind, name):
         return envmodel.make(kind[1], I, name)
     if tag == 'sdict':
         from .sym import SDict
-        return SDict(name, kind[1], make_symbolic)
+        d = SDict(name, kind[1], make_symbolic)
+        if len(kind) > 2:
+            d.kkind = kind[2]        # kind of the keys an iteration yields
+            if kind[2] in ('str', 'nonempty_str', 'ascii'):
+                d.enable_keyset(P)
+        return d
     if tag == 'slist':
         ek = kind[1]
         n = fresh(name + "_len")
@@ -449,6 +469,11 @@ def _check_raise(I, c, ex, exc, spec_locals, old, heap0, args, when_vals):
             msg = ""
             if exc.args and isinstance(exc.args[0], str):
                 msg = ": " + exc.args[0][:120]
+            if exc.fields.get('__origin__'):
+                msg += " (from %s)" % (exc.fields['__origin__'],)
+            w = getattr(exc, 'where', None)
+            if w and w[1]:
+                msg += " (raised in %s, line %s)" % (w[0], w[1])
             path.fail("%s/raises.unexpected" % qn, "raises",
                       "raises %s which no raises-clause allows%s" % (exc.cls.__name__, msg))
         return
@@ -743,7 +768,17 @@ def apply_contract(I, c, ex, args, kwargs):
                         o.fields[left.attr] = val
                         bound.add(ltxt)
                         continue
-            t = I.truth(I.eval(node, e2))
+            try:
+                t = I.truth(I.eval(node, e2))
+            except pyvc.Raised:
+                # the callee guarantees its postcondition evaluates (to True): a post-state in which
+                # evaluating it fails is not a state the callee returns in
+                raise pyvc.Infeasible()
+            except OutOfFragment:
+                # a postcondition the executor cannot state on this caller's (more abstract) values
+                # is simply not assumed: the caller knows less, never more
+                P.ghost.setdefault('unassumed', set()).add((qn, ename))
+                continue
             P.assume(t)
     P.event('return', qn, id(loc['result']))
     if not has_result and not result_bound:
